@@ -41,7 +41,7 @@ claim("C12", "Symbolic records (keys, int64 offsets) indexed by the real NewSlim
 claim("C16", "Typed arrays built by the real constructors from symbolic ascending indexes (enumerated word, symbolic bit) and symbolic elements over the full element range answer typed Get / raw GetBytes / generic Array.Get as a sparse map for a symbolic probe inside the bitmap span, also after a round trip through the codec stub (A-PB) into the typed and the generic type, incl. struct elements with alignment padding through New and NewEmpty+load; invalid index lists are rejected with their dedicated errors and build nothing.", "§7 C16", note="encoding/binary Read/Write/Size are modelled (layout from go/types): generic decoding rests on that model.")
 claim("C17", "Relational size check only (level other): see evidence coverage.explanation. The 8n+256 bound for large n and the exact serialized size are outside what a solver-based check of this code can reach.", "§7 C17", category="other", technique="bounded symbolic execution of the real builder; a structural size measure compared by the solver; real sizes on native replays")
 
-claim("C06", "No old writer exists; two writer models (DESIGN Appendix G) are validated natively against all 97 archived fixtures at setup (assumption A-LW) and then executed symbolically: a symbolic key set is written in every pre-0.5.10 layout variant (u32 children with symbolic upper halves, 16-bit bitmap children, extended bitmaps, steps on leaves; headers 1.0.0/0.5.8/0.5.9) or rewritten into the 0.5.10/0.5.11 layout (nopref/innpref/allpref), loaded by the real Unmarshal (version dispatch and all converters) and must answer Get/RangeGet/Search for every key, exact absent-key answers and scans for allpref, also after the buffer is overwritten.", "§7 C06", note="A-LW: the historical writers produced, for any key set, what the two models produce (checked on every archived sample, unverifiable beyond them). A-PB for the opaque bodies. >65535 nodes and steps >255 nibbles with symbolic content are outside the bounds.")
+claim("C06", "No old writer exists; two writer models (DESIGN Appendix G) are validated natively against all 97 archived fixtures at setup (assumption A-LW) and then executed symbolically: a symbolic key set is written in every pre-0.5.10 layout variant (u32 children with the first-child id in the upper half, 16-bit bitmap children, extended bitmaps, steps on leaves; headers 1.0.0/0.5.8/0.5.9) or rewritten into the 0.5.10/0.5.11 layout (nopref/innpref/allpref), loaded by the real Unmarshal (version dispatch and all converters) and must answer Get/RangeGet/Search for every key, exact absent-key answers and scans for allpref, also after the buffer is overwritten.", "§7 C06", note="A-LW: the historical writers produced, for any key set, what the two models produce (checked on every archived sample, unverifiable beyond them). A-PB for the opaque bodies. >65535 nodes and steps >255 nibbles with symbolic content are outside the bounds.")
 
 # round-4 additions (appended to the claim texts above)
 ROUND4 = {
